@@ -319,7 +319,20 @@ func TestGoto(t *testing.T) {
 		"echo b",
 		")",
 		"echo c",
-	), Options{}, want{unm: "starting with ')'"})
+	), Options{}, want{out: "b\nc\n"})
+	check(t, "stray ') else (' lines act like REM", bat(
+		"goto :inner",
+		"if 1 equ 2 (",
+		":inner",
+		"echo b",
+		") else if \"x\" equ \"y\" (",
+		"echo c",
+		") else (",
+		"echo d",
+		")",
+		"echo e",
+	), Options{}, want{out: "b\nc\nd\ne\n"})
+	check(t, "stray ')' with an ampersand is not guessed", bat("goto :inner", "if 1 equ 2 (", ":inner", "echo b", ") & echo c"), Options{}, want{unm: "starting with ')'"})
 	check(t, "label before closing parenthesis", bat("if 1 equ 1 (", "echo a", ":l", ")"), Options{}, want{unm: "rule 7"})
 	check(t, "two labels in a block", bat("if 1 equ 1 (", ":l1", ":l2", "echo a", ")"), Options{}, want{unm: "rule 7"})
 	check(t, "missing label", bat("echo a", "goto :nowhere", "echo b"), Options{}, want{out: "a\n", err: "batch label"})
